@@ -462,7 +462,7 @@ def c20_check(pid, tier, seed, replay=None):
                 log(f"VIOLATION property={pid} replay={replay}")
                 return 1
             return 0
-        sig = lambda o: f"{o['c']['kind']}:{'+'.join(o['c']['prog'])}:{','.join(o['o']['changed']) or 'race'}"
+        sig = lambda o: f"{o['c']['kind']}:{'+'.join(o['c']['prog'])}:{','.join(sorted(set(o['o']['changed']) | set(o['o'].get('unhealthy', []))) ) or 'race'}"
         tb = table_run(pid, "Isolation", "tbl-isolation", tier, seed, wd, ("C20.",), sig,
                        need=lambda o: [o["c"]["kind"]] + [f"op:{x}" for x in o["c"]["prog"]], binp=binp, label="isolation programs",
                        harness_args=["-world", "world.json"], env=env)
